@@ -1028,9 +1028,11 @@ func (r *Runner) builtin(ctx context.Context, pos syntax.Pos, name string, args 
 		vr.Kind = expand.Indexed
 		scanner := bufio.NewScanner(r.stdin)
 		scanner.Split(mapfileSplit(delim[0], dropDelim))
+		stopRead := r.unblockStdinOnCancel(ctx)
 		for scanner.Scan() {
 			vr.List = append(vr.List, scanner.Text())
 		}
+		stopRead()
 		if err := scanner.Err(); err != nil {
 			return failf(2, "%s: unable to read, %v\n", name, err)
 		}
@@ -1075,6 +1077,25 @@ func (r *Runner) printOptLine(name string, enabled, supported bool) {
 	r.outf("%s\t%s\t(%q not supported)\n", name, state, r.optStatusText(!enabled))
 }
 
+// unblockStdinOnCancel makes reads from the standard input fail as soon as ctx
+// is cancelled, until the returned function is called.
+func (r *Runner) unblockStdinOnCancel(ctx context.Context) (done func()) {
+	stdin := r.stdin
+	stopc := make(chan struct{})
+	stop := context.AfterFunc(ctx, func() {
+		stdin.SetReadDeadline(time.Now())
+		close(stopc)
+	})
+	return func() {
+		if !stop() {
+			// The AfterFunc was started.
+			// Wait for it to complete, and reset the file's deadline.
+			<-stopc
+			stdin.SetReadDeadline(time.Time{})
+		}
+	}
+}
+
 func (r *Runner) readLine(ctx context.Context, raw bool) ([]byte, error) {
 	if r.stdin == nil {
 		return nil, errors.New("interp: can't read, there's no stdin")
@@ -1083,19 +1104,7 @@ func (r *Runner) readLine(ctx context.Context, raw bool) ([]byte, error) {
 	var line []byte
 	esc := false
 
-	stopc := make(chan struct{})
-	stop := context.AfterFunc(ctx, func() {
-		r.stdin.SetReadDeadline(time.Now())
-		close(stopc)
-	})
-	defer func() {
-		if !stop() {
-			// The AfterFunc was started.
-			// Wait for it to complete, and reset the file's deadline.
-			<-stopc
-			r.stdin.SetReadDeadline(time.Time{})
-		}
-	}()
+	defer r.unblockStdinOnCancel(ctx)()
 	for {
 		var buf [1]byte
 		n, err := r.stdin.Read(buf[:])
